@@ -613,7 +613,8 @@ def fp_d11(inp):
         return all(d["top_power"] for _, _, _, d in fails) or repaired_away(inp, "D11", or_rejected=True)
     if inp.get("clause") == "value-of-inferred-kind":
         fails = check(inp)
-        if not fails or not all(d["has_power"] or d["copy_of"] for _, _, _, d in fails):
+        if not fails or not all(d["has_power"] or d["copy_of"] or d["isnan_call"] for _, _, _, d in fails) \
+                or not any(d["has_power"] or d["copy_of"] for _, _, _, d in fails):
             return False
         if repaired_away(inp, "D11"):
             return True
@@ -953,7 +954,7 @@ def bounded(payload):
     tier = payload.get("tier", "quick")
     seed = payload.get("seed", 0)
     rng = random.Random(seed)
-    nprog = budget.get("programs", 2500 if tier == "quick" else 40000)
+    nprog = budget.get("programs", 2000 if tier == "quick" else 40000)
     deadline = time.time() + budget.get("wall_s", 14 if tier == "quick" else 270)
     active = [(e.get("id"), e.get("fingerprint")) for e in payload.get("known", []) or []
               if e.get("fingerprint") in FINGERPRINTS]
@@ -1065,5 +1066,5 @@ def bounded(payload):
                     % (stride, len(SEED_PROGRAMS)),
             "bound": "argument arrays of length 4 (2x2 matrices); programs <=8 top-level statements, depth <=2, "
                      "state of 3 entries, 2 steps",
-            "samples": samples, "failures": failures[:20], "known_hits": known_hits, "parts": dict(parts),
+            "samples": samples, "failures": sorted(failures, key=lambda f: bool(f["matches_fingerprints"]))[:20], "known_hits": known_hits, "parts": dict(parts),
             "exhaustive": False}
